@@ -4,6 +4,7 @@ import (
 	"encoding/json"
 	"errors"
 	"fmt"
+	"math"
 	"reflect"
 	"strings"
 	"time"
@@ -73,7 +74,15 @@ type Doc struct {
 
 var ErrHookReject = errors.New("rejected by Validate hook")
 
+// hookNaN as H.Append makes Transform derive a value that cannot be serialised (a ratio 0/0):
+// the object is fine as the caller passes it and unstorable once its own hook has run.
+const hookNaN = "\x00nan"
+
 func (d *Doc) Transform() {
+	if d.H.Append == hookNaN {
+		d.F64 = math.NaN()
+		return
+	}
 	if d.H.Append != "" {
 		d.S += d.H.Append
 	}
@@ -286,6 +295,8 @@ func (v Val) String() string {
 		return "nil"
 	case "b":
 		return "bool"
+	case "nan":
+		return "f:NaN"
 	}
 	return "?" + v.K
 }
@@ -297,7 +308,7 @@ func (v Val) Class() string {
 		return ClsInt
 	case "u":
 		return ClsUint
-	case "f":
+	case "f", "nan":
 		return ClsFloat
 	case "s":
 		return ClsStr
@@ -308,6 +319,13 @@ func (v Val) Class() string {
 // Go value handed to sod as search value
 func (v Val) Iface(p PathInfo) interface{} {
 	switch v.K {
+	case "nan":
+		// a well-typed float that has no place in the ordering: results are unspecified, but
+		// must not depend on the storage configuration (C12)
+		if p.Type == "float32" && v.Narrow {
+			return float32(math.NaN())
+		}
+		return math.NaN()
 	case "i":
 		if v.Narrow {
 			switch p.Type {
